@@ -27,6 +27,8 @@ import Verif.Drv.RegenLeaf
 import Verif.Drv.ListStarts
 import Verif.Drv.LeafBlocks2
 import Verif.Drv.ScanRules2
+import Verif.Drv.TokenRules2
+import Verif.Drv.ListRules
 
 /-- model name → request handler (one request line in, one answer line out). -/
 def models : List (String × (String → String)) :=
@@ -70,7 +72,9 @@ def models : List (String × (String → String)) :=
    ("regenleaf", Verif.Drv.RegenLeaf.step),
    ("liststarts", Verif.Drv.ListStarts.step),
    ("leafblocks2", Verif.Drv.LeafBlocks2.step),
-   ("scanrules2", Verif.Drv.ScanRules2.step)]
+   ("scanrules2", Verif.Drv.ScanRules2.step),
+   ("tokenrules2", Verif.Drv.TokenRules2.step),
+   ("listrules", Verif.Drv.ListRules.step)]
 
 partial def loop (h : IO.FS.Stream) (out : IO.FS.Stream) (f : String → String) : IO Unit := do
   let line ← h.getLine
